@@ -15,6 +15,7 @@ pub mod c06;
 pub mod c07;
 pub mod c08;
 pub mod c09;
+pub mod c10;
 pub mod c12;
 pub mod c13;
 pub mod c14;
@@ -37,6 +38,7 @@ pub fn check(prop: &str, tier: Tier) -> i32 {
 		"C07" => c07::check(tier),
 		"C08" => c08::check(tier),
 		"C09" => c09::check(tier),
+		"C10" => c10::check(tier),
 		"C12" => c12::check(tier),
 		"C13" => c13::check(tier),
 		"C14" => c14::check(tier),
@@ -74,6 +76,7 @@ pub fn replay(prop: &str, file: &str) -> i32 {
 		"C04" => c04::replay(&r),
 		"C08" => c08::replay(&r),
 		"C09" => c09::replay(&r),
+		"C10" => c10::replay(&r),
 		"C12" => c12::replay(&r),
 		"C13" => c13::replay(&r),
 		"C14" => c14::replay(&r),
